@@ -8,7 +8,7 @@ from . import bind  # noqa: F401
 from . import events, explore, worlds
 
 HAND_SEEDS = ["empty", "chain", "skip", "div", "two", "desc"]
-NOSEG_SEEDS = HAND_SEEDS + ["zero"]  # node id 0 is legal only without a label array
+NOSEG_SEEDS = HAND_SEEDS + ["zero", "twodiv"]  # node id 0 is legal only without a label array
 ASSUME_COMMON = [
     "third-party behaviour (networkx, numpy, skimage.regionprops, psygnal) is trusted",
     "bounds: <= 6 seed nodes, 4 frames, 4x6 (x2) pixel frames, alphabets of DESIGN.md 3.2",
@@ -145,7 +145,7 @@ def struct_stages(tier, seg_depth_q=1, seg_depth_t=2, extra_kinds=()):
     kinds = STRUCT_KINDS + tuple(extra_kinds)
     return [
         dict(name="noseg-bfs", worlds=["noseg-2d"], seeds=NOSEG_SEEDS, depth=2 if q else 3, kinds=kinds),
-        dict(name="noseg-given-bfs", worlds=["noseg-2d-given"], seeds=["div", "two", "desc"], depth=2 if q else 3, kinds=kinds),
+        dict(name="noseg-given-bfs", worlds=["noseg-2d-given", "noseg-2d-given0"], seeds=["div", "two", "desc"], depth=2 if q else 3, kinds=kinds),
         dict(name="renamed-keys", worlds=["noseg-2d-renamed", "noseg-2d-renamed-given"], seeds=["div", "skip", "zero"],
              depth=1 if q else 2, kinds=kinds),
         dict(name="forests", worlds=["noseg-2d-given"], seeds=forests_seeds(4 if q else 5, 3 if q else 4), depth=1, kinds=kinds),
@@ -206,6 +206,7 @@ def check_c01(tier):
     kinds = STRUCT_KINDS + ("set_attr", "primitive")
     stages = [
         dict(name="noseg-bfs", worlds=["noseg-2d", "noseg-2d-given"], seeds=NOSEG_SEEDS, depth=2 if q else 3, kinds=kinds),
+        dict(name="noseg-zero-based-ids", worlds=["noseg-2d-given0"], seeds=["div", "two", "desc", "skip"], depth=2, kinds=kinds),
         dict(name="noseg-configs", worlds=["noseg-2d-axes", "noseg-3d", "noseg-2d-fd", "noseg-2d-renamed", "noseg-2d-renamed-given"],
              seeds=NOSEG_SEEDS, depth=1 if q else 2, kinds=kinds),
         dict(name="forests", worlds=["noseg-2d"], seeds=forests_seeds(4 if q else 5, 3 if q else 4), depth=1, kinds=kinds),
@@ -417,6 +418,7 @@ C10_SEG = dict(name="C10-seg-div", world="seg-2d-core", seed="div", items=[
     UNDO, REDO,
 ])
 C10_SEG_FD = dict(C10_SEG, name="C10-seg-div-featuredict", world="seg-2d-fd")
+C10_SEG_FD_STALE = dict(C10_SEG, name="C10-seg-div-featuredict-stale-area", world="seg-2d-fd-stale")
 C10_NOSEG = dict(name="C10-noseg-div", world="noseg-2d", seed="div", items=[
     ENABLE("lineage_id"), DISABLE("lineage_id"), ENABLE("track_id"), DISABLE("track_id"),
     ENABLE("area"), DISABLE("nope"), ENABLE("lineage_id", "nope"),
@@ -443,6 +445,7 @@ C08_TOGGLE_ANISO = dict(C08_TOGGLE, name="C08-toggle-aniso", world="seg-2d-aniso
 C09_TOGGLE = dict(name="C09-toggle-skip", world="seg-2d", seed="skip", items=[
     _DIS("iou"), _EN("iou"),
     ("paint", 0, [[0], [0]], 0, 9, False, "part1"),
+    ("paint", 0, [[0, 1], [1, 1]], 0, 9, False, "erase-overlap-of-1-with-2"),   # IoU of edge (1,2) drops to exactly 0
     ("paint", 2, [[0, 0], [1, 3]], 2, 9, False, "grow2"),
     ("add_node", 4, 1, 1, False, "ok", [[0, 0, 1, 1], [0, 1, 0, 1]]),
     ("del_node", 2),
@@ -452,7 +455,8 @@ C09_TOGGLE = dict(name="C09-toggle-skip", world="seg-2d", seed="skip", items=[
 
 def check_c10(tier):
     q = tier == "quick"
-    menus = [(C10_SEG, 3 if q else 4), (C10_SEG_FD, 3 if q else 4), (C10_NOSEG, 4 if q else 5), (C10_NOSEG_FD, 3 if q else 4)]
+    menus = [(C10_SEG, 3 if q else 4), (C10_SEG_FD, 3 if q else 4), (C10_SEG_FD_STALE, 2 if q else 3),
+             (C10_NOSEG, 4 if q else 5), (C10_NOSEG_FD, 3 if q else 4)]
     return run_e2("C10", tier, "C10", menus, time_budget=budget(tier, 150, 3000))
 
 
